@@ -2,6 +2,7 @@ import NmVerif.Proto
 import NmVerif.Static
 import NmVerif.StaticMore
 import NmVerif.StaticEval
+import NmVerif.StaticGen
 /-
   Driver for C11: `c11 rpn=<tok>;<tok>;… shapes=<leaf shape>;… rargs=<run-time argument>;…`
   interprets the program (reverse Polish, tokens written by harness/gen_c11.py) twice at once:
@@ -198,6 +199,79 @@ def stepMore (st : St) (fields : List String) : Option (M St) :=
     else none
   | _ => none
 
+/-- optional axis of the third group: `axn` | `axc<k>` | `axr<k>` | `axr` (run-time -1 = the last axis of the instance) -/
+def axExtLast (f : String) (rank : Nat) : M (AxisK × Option Nat) :=
+  if f == "axr" then (if rank = 0 then .error "rank-0" else pure (.rts, some (rank - 1))) else axExt f
+
+def pair? (l : List Nat) : M (List Nat) :=
+  match l with
+  | [_, _] => pure l
+  | [n] => pure [n, n]
+  | _ => .error "bad-pair"
+
+/-- the view kinds of NmVerif.StaticGen; `none` = not one of them.  eye / tri have no array operand: the generator hangs
+    them under a leaf that only supplies run-time numbers, which is popped and dropped -/
+def stepGen (st : St) (fields : List String) : Option (M St) :=
+  match fields with
+  | name :: args =>
+    if name == "eye" || name == "tri" then some do
+      let (_, st) ← pop1 st
+      let (k, v, st) ← (match args with
+        | "ct" :: v :: _ => do let l ← nats? v; let l ← pair? l; pure (ArrK.ct l, l, st)
+        | "cts" :: v :: _ => do let n ← nat? v; pure (ArrK.ct [n, n], [n, n], st)
+        | "rt" :: _ => do let (r, st') ← popArg st; let l ← toNats r; let l ← pair? l; pure (ArrK.rt 2, l, st')
+        | "rts" :: _ => do let (r, st') ← popArg st; let l ← toNats r; let l ← pair? l; pure (ArrK.rt 2, l, st')
+        | _ => .error "bad-eye-arg" : M (ArrK × List Nat × St))
+      let o ← need (if name == "eye" then transferEye k else transferTri k) "transfer"
+      pure { st with stack := (o, v) :: st.stack }
+    else if name == "tril" || name == "triu" then some do
+      let st ← (match args with
+        | "rts" :: _ => do let (_, st') ← popArg st; pure st'
+        | _ => pure st : M St)
+      unary st transferTril (fun s => some (refTril s))
+    else if name == "max_pool2d" || name == "avg_pool2d" then some do
+      -- kernel: ct.<v> | rt.<n>; stride `s<k>` = (k, k) of the SAME kind as the kernel; `c<0|1>` = ceil_mode (a constant)
+      let (kk, kv, st) ← arrArg args st
+      let kvn ← toNats kv
+      let sf ← need (args.find? (fun f => f.startsWith "s")) "stride"
+      let sn ← nat? (sf.drop 1).toString
+      let ceil := args.contains "c1"
+      let sk : ArrK := match kk with | .ct _ => .ct [sn, sn] | _ => .rt 2
+      unary st (transferPool2d kk sk ceil) (refPool ceil kvn [sn, sn])
+    else if name == "resize" then some do
+      let (k, v, st) ← arrArg args st
+      let t ← toNats v
+      unary st (transferResize k) (refResize t)
+    else if name == "sliding_window" then some do
+      let ((i, s), st) ← pop1 st
+      let (ax, axis) ← axExtLast (lastField args) s.length
+      let (w, wv, st) ← (match args with
+        | "cts" :: v :: _ => do let n ← nat? v; pure (WinK.num (.ct n), WinV.num n, st)
+        | "rts" :: _ => do
+            let (r, st') ← popArg st
+            match ← toNats r with
+            | [n] => pure (WinK.num .rt, WinV.num n, st')
+            | _ => .error "bad-window"
+        | _ => do let (k, v, st') ← arrArg args st; let l ← toNats v; pure (WinK.arr k, WinV.arr l, st') : M (WinK × WinV × St))
+      let o ← need (transferSlidingWindow w ax i) "transfer"
+      let t ← need (refSlidingWindow wv axis s) "ref-shape"
+      pure { st with stack := (o, t) :: st.stack }
+    else if name == "compress" then some do
+      let ((i, s), st) ← pop1 st
+      let (c, v, st) ← arrArg args st
+      let cv ← toNats v
+      let (ax, axis) ← axExtLast (lastField args) s.length
+      let o ← need (transferCompress c ax i) "transfer"
+      let t ← need (refCompress cv axis s) "ref-shape"
+      pure { st with stack := (o, t) :: st.stack }
+    else if name == "outer_add" then some do
+      let ((j, sb), st) ← pop1 st
+      let ((i, sa), st) ← pop1 st
+      let o ← need (transferOuter i j) "transfer"
+      pure { st with stack := (o, refOuter sa sb) :: st.stack }
+    else none
+  | _ => none
+
 def step (st : St) (tok : String) : M St := do
   let fields := tok.splitOn "."
   match fields with
@@ -284,7 +358,10 @@ def step (st : St) (tok : String) : M St := do
   | _ =>
     match stepMore st fields with
     | some r => r
-    | none => .error s!"unknown-token:{tok}"
+    | none =>
+      match stepGen st fields with
+      | some r => r
+      | none => .error s!"unknown-token:{tok}"
 
 def run (rpn : String) (shapes : List (List Nat)) (rargs : List (List Int)) : String :=
   let toks := (rpn.splitOn ";").filter (· ≠ "")
